@@ -110,6 +110,11 @@ def gen_program(rng, clock=None, n_events=None, p_cancel=0.12, p_bad=0.0,
         if pre:
             rest = [a for a in roots if not any(a is b for b in pre)]
             roots = [["pre", a[1], a[2], a[3]] for a in pre] + rest
+            if rng.random() < 0.5:
+                # the handler of a pre-built event hands the same (now executed) object
+                # to schedule_event again and cancels it at once
+                e0 = pre[0][2]
+                events[str(e0)].append(["repre", e0])
     initial = []
     if rng.random() < 0.12:
         # an "initial method" (Simulator.add_initial_method): executed at the end
